@@ -17,8 +17,72 @@ from . import sleepbuf as sb
 from .common import Ctx, fkey
 
 
+def forget_guarded(ctx: Ctx, chk) -> None:
+    """Independent of how the buffer is laid out (one flat dict, a dict of per-node dicts ...): a necessary condition
+    of 'no update is lost' that is visible in the shape of the release loop alone."""
+    rule = "FORGET-GUARDED"
+    chk.rule(rule, "in a loop that awaits gateway.send for a parked entry and then removes an entry from a container that comes from the set-message buffer (the buffer itself, a per-node bucket of it, a local alias), the removal is guarded by an identity test of the current entry against the object that was sent (`c.get(k) is m` / `c[k] is m`): across the await a newer command may have replaced the entry, and removing by key alone forgets a command that was never written")
+    from ..cfg import has_await
+
+    n = 0
+    for f in ctx.prog.all_functions():
+        if not f.module.name.startswith("aiomysensors.model.protocol"):
+            continue
+        if not any(isinstance(x, (ast.For, ast.AsyncFor, ast.While)) for x in ctx.own_nodes(f)):
+            continue
+        f = ctx.inl(f)  # the loop body (send + forget) may be a private helper coroutine
+        la = ctx.I.local_assigns(f)
+        parents_ = {c_: p_ for p_ in ast.walk(f.node) for c_ in ast.iter_child_nodes(p_)}
+
+        def from_buffer(e, depth=0) -> bool:
+            if depth > 4:
+                return False
+            if any(isinstance(x, ast.Attribute) and x.attr == "set_messages" for x in ast.walk(e)):
+                return True
+            for x in ast.walk(e):
+                if isinstance(x, ast.Name) and x.id in la and x.id not in f.params:
+                    if any(isinstance(v, ast.expr) and from_buffer(v, depth + 1) for v in la[x.id]):
+                        return True
+            return False
+
+        for lp in [x for x in ctx.own_nodes(f) if isinstance(x, (ast.For, ast.AsyncFor, ast.While))]:
+            sends = [x for b in lp.body for x in ast.walk(b) if isinstance(x, ast.Await) and isinstance(x.value, ast.Call) and isinstance(x.value.func, ast.Attribute) and x.value.func.attr == "send"]
+            if not sends:
+                continue
+            for b in lp.body:
+                for x in ast.walk(b):
+                    cont = None
+                    if isinstance(x, ast.Delete):
+                        for t in x.targets:
+                            if isinstance(t, ast.Subscript) and from_buffer(t.value):
+                                cont = (t.value, x)
+                    elif isinstance(x, ast.Call) and isinstance(x.func, ast.Attribute) and x.func.attr in ("pop", "popitem", "clear") and from_buffer(x.func.value):
+                        cont = (x.func.value, x)
+                    if cont is None or x.lineno < sends[0].lineno:
+                        continue
+                    n += 1
+                    chk.instance(rule)
+                    key = fkey(f, cont[1]) + "::identity-guard"
+                    # enclosing tests inside the loop body
+                    guarded = False
+                    cur = cont[1]
+                    while cur in parents_ and cur is not lp:
+                        par = parents_[cur]
+                        if isinstance(par, ast.If) and cur in par.body:
+                            for c_ in ast.walk(par.test):
+                                if isinstance(c_, ast.Compare) and len(c_.ops) == 1 and isinstance(c_.ops[0], ast.Is) and any(from_buffer(s_) for s_ in (c_.left, c_.comparators[0])):
+                                    guarded = True
+                        cur = par
+                    if guarded:
+                        chk.ok(rule, key, "removal under an identity test of the current entry", ctx.loc(f, cont[1]), sample=n <= 1)
+                    else:
+                        chk.refute(rule, key, f"`{norm(cont[1])[:60]}` in {f.qualname} removes the entry by key after the awaited send without checking that it still is the object that was written: a command sent for that key while the write was suspended has replaced it and is forgotten unwritten", ctx.loc(f, cont[1]))
+    chk.floor(rule, "removals after an awaited send in release loops", n, 1)
+
+
 def run(ctx: Ctx, chk) -> None:
     chk.assume("A1", "A2")
+    chk.run_rule(forget_guarded, ctx)
     chk.run_rule(atom1, ctx)
     chk.run_rule(iter1, ctx)
     chk.run_rule(mut1, ctx)
@@ -110,6 +174,23 @@ def asleep_during_flush(ctx: Ctx, chk) -> None:
             continue
         if any(isinstance(n, ast.Call) and ((isinstance(n.func, ast.Attribute) and n.func.attr in flush_names) or (isinstance(n.func, ast.Name) and n.func.id in flush_names)) for n in ctx.own_nodes(f)):
             scope.append(f)
+    # helpers and context managers the flush / the wake handlers use (module functions, private methods, the
+    # __enter__ / __exit__ pair of a manager class): what they store runs around the release as well
+    extra: list = []
+    for f in list(scope):
+        for c in [x for x in ctx.own_nodes(f) if isinstance(x, ast.Call) and isinstance(x.func, (ast.Name, ast.Attribute))]:
+            d = ctx.prog.resolve_expr(ctx.prog.origin(f.module, c), c.func)
+            if d is None:
+                continue
+            cands = []
+            if d.kind == "func" and not d.obj.name.startswith("handle_") and d.obj.module.name.startswith("aiomysensors.model"):
+                cands = [d.obj]
+            elif d.kind == "class" and d.obj.module.name.startswith("aiomysensors.model"):
+                cands = [m_ for nm_ in ("__enter__", "__exit__", "__aenter__", "__aexit__", "__init__") for m_ in [d.obj.find_method(nm_)] if m_ is not None]
+            for h in cands:
+                if h not in scope and h not in extra:
+                    extra.append(h)
+    scope += extra
     n = 0
     for f in scope:
         n += 1
@@ -117,6 +198,7 @@ def asleep_during_flush(ctx: Ctx, chk) -> None:
         bad = None
         for node in ctx.own_nodes(f):
             tg = node.targets if isinstance(node, ast.Assign) else [node.target] if isinstance(node, (ast.AugAssign, ast.AnnAssign)) else []
+            tg = [x for t in tg for x in (t.elts if isinstance(t, (ast.Tuple, ast.List)) else [t])]
             for t in tg:
                 if isinstance(t, ast.Attribute) and t.attr == "sleeping" and not (isinstance(node, ast.Assign) and isinstance(node.value, ast.Constant) and node.value.value is True):
                     bad = node
